@@ -277,6 +277,9 @@ func c06Oracle(p *Plan) *Verdict {
 	}
 	checkCaptures := func(want map[string]string) {
 		for k, w := range want {
+			if !contains(c06Vars, k) {
+				continue // (a variable of an annotated method outside this check's vocabulary: C07 binds those)
+			}
 			if g := obs.captures[k]; g != w {
 				f := copyFacts(facts)
 				v.violate("captures-differ", f, "variable %s: template capture is %q (decoded once, %%2F kept in multi-segment captures), the method received %q; %s", k, w, g, describe())
